@@ -371,7 +371,17 @@ fn semantic(ty: &str, c: &Comp, v: &str) -> Verdict {
             if ["SNDTIME", "CLSTIME", "RNCTIME", "REJTIME", "CUTTIME"].contains(&v) { Verdict::Accept } else { Verdict::Unspecified("13c-code-list".into()) }
         }
         "code23b" => {
-            if ["CRED", "CRTS", "SPAY", "SPRI", "SSTD"].contains(&v) { Verdict::Accept } else { Verdict::Unspecified("23b-code-list".into()) }
+            // SR 2025 closes the list (T36) to five codes; the crate's documentation adds URGP as a "common code" and
+            // its parser takes a wider list, so other words stay unsettled - except the instruction codes of field
+            // 23E (T47 / T48 lists), which name something else and are never a bank operation code
+            const CODES_23E: &[&str] = &["CHQB", "CORT", "HOLD", "INTC", "PHOB", "PHOI", "PHON", "REPA", "SDVA", "TELB", "TELE", "TELI", "CMSW", "CMTO", "CMZB", "EQUI", "NETS", "OTHR", "RTGS"];
+            if ["CRED", "CRTS", "SPAY", "SPRI", "SSTD"].contains(&v) {
+                Verdict::Accept
+            } else if CODES_23E.contains(&v) {
+                Verdict::Reject(format!("code23b:instruction-code-of-23E={v}"))
+            } else {
+                Verdict::Unspecified("23b-code-list".into())
+            }
         }
         "code71a" => {
             if ["BEN", "OUR", "SHA"].contains(&v) { Verdict::Accept } else { Verdict::Reject("code:not-BEN-OUR-SHA".into()) }
@@ -889,7 +899,7 @@ pub fn candidates(spec: &Spec, k: usize, r: &mut Rng, random_extra: usize) -> Ve
             }
             // code words of *other* fields in a closed code list, and a lone special character as the whole value
             if matches!(c.name.as_str(), "code23b" | "code71a" | "func" | "ttype" | "dcmark" | "dcmark61") {
-                for wd in ["CHQB", "PHON", "HOLD", "SDVA", "CRED", "SPRI", "SHA", "OUR", "BEN", "NAUT", "AUTH", "RFDD", "C", "D", "RC", "RD", "N", "S", "F"] {
+                for wd in ["CHQB", "CORT", "HOLD", "INTC", "PHOB", "PHOI", "PHON", "REPA", "SDVA", "TELB", "TELE", "TELI", "CMSW", "CMTO", "CMZB", "EQUI", "NETS", "OTHR", "RTGS", "URGP", "CRED", "SPRI", "SHA", "OUR", "BEN", "NAUT", "AUTH", "RFDD", "C", "D", "RC", "RD", "N", "S", "F"] {
                     let over = |l2: usize, c2: usize, rep: usize| if l2 == li && c2 == ci && rep == 0 { Some(format!("{}{}", c.lit, wd)) } else { None };
                     out.push(Candidate { content: render(spec, k, &over, &default_counts), component: comp_label.clone(), class: format!("other-code-word={wd}") });
                 }
